@@ -22,6 +22,7 @@ import (
 	"os/exec"
 	"regexp"
 	"runtime"
+	"runtime/debug"
 	"runtime/pprof"
 	"sort"
 	"strings"
@@ -590,7 +591,7 @@ type c19Dec struct {
 type c19Pool struct{}
 
 func (c19Pool) GetDecompressBytes([]byte, CompressionCodecType) []byte {
-	b := make([]byte, 64, 4096)
+	b := make([]byte, 16, 256)
 	for i := range b {
 		b[i] = 0xAA
 	}
@@ -1380,14 +1381,23 @@ type c19Base struct {
 	data  []byte
 }
 
+var c19BaseComps = map[string]Compressor{}
+
 func c19BuildBase(a c19Art) ([]byte, CompressionCodecType, error) {
 	d := a.Payload.bytes()
 	if a.Kind == "xerial" {
 		return c19XerFrame(d, *a.Xerial), CodecSnappy, nil
 	}
-	comp, err, pan := c19NewCompressor(a.Cfgs)
-	if err != nil || pan != nil || comp == nil {
-		return nil, 0, fmt.Errorf("compressor: %v %v", err, pan)
+	key := fmt.Sprint(a.Cfgs)
+	comp := c19BaseComps[key]
+	if comp == nil {
+		var err error
+		var pan any
+		comp, err, pan = c19NewCompressor(a.Cfgs)
+		if err != nil || pan != nil || comp == nil {
+			return nil, 0, fmt.Errorf("compressor: %v %v", err, pan)
+		}
+		c19BaseComps[key] = comp
 	}
 	var fl []CompressFlag
 	for _, f := range a.Flags {
@@ -2015,6 +2025,9 @@ func TestVerifC19(t *testing.T) {
 	h := &c19H{r: r, workers: ev.Workers(), counts: map[string]int64{}, outcome: map[string]int64{}, info: map[string][]any{}}
 	h.cur = make([]atomic.Pointer[c19Running], h.workers+1)
 	go h.watchdog(10 * time.Minute)
+	// live heap is small and garbage is large (codec writers/readers): collect
+	// rarely so the codecs' sync.Pools are not emptied every few milliseconds.
+	debug.SetGCPercent(2000)
 
 	r.Rule("Phase A (production maximum): every byte string of length <=2, and run / period-2 / period-3 / counter / LCG-noise payloads of lengths 0-4, 15-17, 255-257, 65535-65537, 1 MiB, through DefaultCompressor for every codec x every level the libraries accept plus out-of-range levels; every codec preference list (length <=3 with repetition, all permutations of 4 and 5) x flag lists incl. CompressDisableZstd; xerial-framed snappy built by hand (chunk splits x two chunk encoders x header variants). Each output is decoded by both DefaultDecompressor variants (no pool / user byte pool) and by an independent decoder (stdlib gzip + hand-checked trailer, hand-written snappy block decoder, hand-written LZ4 frame decoder with xxh32 checksums, separately configured zstd decoder, and the zstd / lz4 / gzip CLIs over concatenated frames). Phase B (maxDecompressedSize shrunk to 1 MiB): every byte string of length <=2 (thorough <=3) raw and embedded after each codec's magic / header forms; every truncation and every single-byte substitution {00,01,7f,80,ff} (all 256 values near both ends) of valid outputs incl. xerial; crafted headers claiming huge sizes and real bombs, run sequentially with TotalAlloc measured. distinct_nontrivial counts distinct compressed outputs that round-tripped, distinct preference-list x flag combinations, distinct xerial frames, mutated bases, crafts, and distinct (codec, decompressor, family, outcome) classes of hostile inputs.")
 	r.Assume(
